@@ -252,7 +252,12 @@ func runCheck(cfg *PropConfig, tier string, seed int) int {
 			rf.Function = r.Name
 		}
 		reproduced := false
-		if o.Status == "bounded-violation" {
+		if o.Status == "mismatch" && strings.HasPrefix(o.Name, "layout:") && !strings.HasPrefix(o.Name, "layout:c-anchor:") {
+			// computed from the two real declarations (clang's layout of the C one, go/types' of the Go one): the
+			// disagreeing pair is the failing case, no solver abstraction is involved
+			reproduced = true
+			rf.Replay = "disagreement between the real declarations: " + o.Model
+		} else if o.Status == "bounded-violation" {
 			reproduced = true
 			rf.Replay = "found by the bounded enumeration on the real code: " + o.Model
 			rf.ReplayLog = o.Output
